@@ -16,7 +16,7 @@ META = {
                    'monomials of symbolic coordinates) == right-hand sides; rgb_fractal == Kronecker formula for symbolic matrices; qft/iqft: gate groups unitary and '
                    'their product == bit-reversed DFT / its conjugate with 1/sqrt(2) and the phases exp(i pi/2^k) as exact algebraic symbols (half-angle axioms). '
                    'Parameter-free models (qfa, qfan, shor, signaling_cascade, fractals) have no free value: the check is exact constant folding over rationals, '
-                   'enumerated over the size parameter only (weakest obligations of the set). toll_station(lanes, cars) == master-equation generator of the documented traffic network with the arrival/departure densities as exact terms over exp, sqrt and pi (trivial factorisation in its SLIM SVD), column sums 0, off-diagonals >= 0 given exp > 0. Fractals are enumerated up to level 9 (1-d Cantor dust), 5 (2-d) and 3 (3-d).',
+                   'enumerated over the size parameter only (weakest obligations of the set). toll_station(lanes, cars) == master-equation generator of the documented traffic network with the arrival/departure densities as exact terms over exp, sqrt and pi (trivial factorisation in its SLIM SVD), column sums 0, off-diagonals >= 0 given exp > 0. Fractals are enumerated up to level 9 (1-d Cantor dust), 5 (2-d), 3 (3-d), 2 (4-d) and 1 (5-d).',
     'bounds': {'quick': 'ising d<=4; exciton n<=4; co_oxidation order 2-3 (TT column sums up to order 5); two_step m<=2; kuramoto/fpu d<=4; qft n<=3; qfan<=2; '
                         'signaling_cascade d<=3 (column sums in TT form); rgb_fractal 2x2 level<=2',
                'thorough': 'co_oxidation order 4 dense, qft gate groups up to n=7, larger TT-form sizes (the product == DFT identity at n=4 does not finish: z3 ignores its timeout; not claimed)'},
@@ -359,7 +359,7 @@ def rgb_fractal(ctx, n, level):
 
 
 @scenario('C13', 'fractals', lambda tier: [{'which': w, 'dimension': dm, 'level': l} for w in ('cantor_dust', 'multisponge', 'vicsek_fractal')
-                                            for (dm, ls) in ((1, (1, 2, 3, 4, 5, 6, 7, 8, 9)), (2, (1, 2, 3, 4, 5) if tier == 'quick' else (1, 2, 3, 4, 5, 6)), (3, (1, 2, 3)))
+                                            for (dm, ls) in ((1, (1, 2, 3, 4, 5, 6, 7, 8, 9)), (2, (1, 2, 3, 4, 5) if tier == 'quick' else (1, 2, 3, 4, 5, 6)), (3, (1, 2, 3)), (4, (1, 2)), (5, (1,)))
                                             for l in ls if not (dm == 1 and w != 'cantor_dust')])     # multisponge / vicsek_fractal require dimension > 1
 def fractals(ctx, which, dimension, level):
     """cantor_dust / multisponge / vicsek_fractal == Kronecker power of their level-1 generator; generator == defining pattern (concrete, exact)"""
